@@ -126,6 +126,16 @@ func (s *Storage) Delete(key string) error {
 	return nil
 }
 
+// FailNextGet makes the next Get call return an injected error
+func (s *Storage) FailNextGet() {
+	s.mu.Lock()
+	if s.FailGet == nil {
+		s.FailGet = map[int]bool{}
+	}
+	s.FailGet[s.nGet+1] = true
+	s.mu.Unlock()
+}
+
 // FailNextDelete makes the next Delete call return an injected error (and leave the record in place)
 func (s *Storage) FailNextDelete() {
 	s.mu.Lock()
